@@ -251,37 +251,46 @@ def init (fl : Flavour) : St :=
 structure BHandle where
   idx : Nat
   cursor : Nat
-  closed : Bool
+  closed : Bool        -- the handle's own flag (reset by `to_async` / `to_sync`)
+  registered : Bool    -- its cursor cell is in the producer's cursor list (cleared by close / drop, never set again)
   isAsync : Bool
   deriving DecidableEq, Repr, Inhabited
 
 structure BroadcastSpec where
   cap : Nat
-  sent : List Val := []
+  sent : List Val := []             -- every value written so far; `head = sent.length`
   rxs : List BHandle := []          -- receiver handle objects (closed ones stay until dropped)
   txAlive : Bool := true            -- the sender handle object exists
   txClosed : Bool := false          -- sender's own closed flag
   txAsync : Bool := false
-  producerGone : Bool := false      -- what receivers test
+  producerGone : Bool := false      -- `producer_dropped`: what receivers test; never reset
   recvd : List (Nat × Val) := []    -- ghost: (receiver idx, value) in delivery order
   born : List (Nat × Nat) := []     -- ghost: receiver idx ↦ cursor at creation
+  created : List Val := []
   returned : List Val := []
   lost : List Val := []
-  deriving Repr, Inhabited
+  deriving DecidableEq, Repr, Inhabited
 
 def BroadcastSpec.head (b : BroadcastSpec) : Nat := b.sent.length
 
-/-- live (registered) cursors -/
+/-- registered cursors -/
 def BroadcastSpec.cursors (b : BroadcastSpec) : List Nat :=
-  (b.rxs.filter (fun r => !r.closed)).map (·.cursor)
+  (b.rxs.filter (fun r => r.registered)).map (·.cursor)
 
 def minList : List Nat → Nat → Nat
   | [], d => d
   | x :: r, d => min x (minList r d)
 
-/-- slowest live receiver (the head itself when there is none) -/
+/-- slowest registered receiver (the head itself when there is none) -/
 def BroadcastSpec.minCursor (b : BroadcastSpec) : Nat := minList b.cursors b.head
 
+/-- `producer_space`: `cap − min(head − min_tail, cap)` -/
 def BroadcastSpec.room (b : BroadcastSpec) : Nat := b.cap - (b.head - b.minCursor)
+
+/-- what the ring slot of logical index `i < head` holds now: the value of the latest index written
+to that slot (`i` itself unless the slot was overwritten — only a stale, unregistered-then-cloned
+cursor can be lapped) -/
+def BroadcastSpec.slotIdx (b : BroadcastSpec) (i : Nat) : Nat :=
+  if b.cap = 0 then i else i + b.cap * ((b.head - 1 - i) / b.cap)
 
 end Fv.Chan
